@@ -15,7 +15,7 @@ use pico::{Database, SourceId};
 use prelude::Postfix;
 
 use crate::{
-    read_files::{read_file, read_files_in_folder},
+    read_files::{is_source_file_path, read_file, read_files_in_folder},
     watch::{ChangedFileKind, SourceEventKind, SourceFileEvent},
     write_artifacts::unable_to_do_something_at_path_diagnostic,
 };
@@ -164,6 +164,10 @@ fn create_or_update_iso_literals<TCompilationProfile: CompilationProfile>(
     db: &mut IsographDatabase<TCompilationProfile>,
     path: &Path,
 ) -> LocationFreeDiagnosticResult<()> {
+    if !is_source_file_path(path) {
+        // e.g. a .md or binary file: a batch compile does not read it either
+        return Ok(());
+    }
     let (relative_path, content) =
         // TODO this function should live here
         read_file(path.to_path_buf(), db.get_current_working_directory())?;
